@@ -69,7 +69,7 @@ MODULES = ["PrimaiteModel.Props.C08", "PrimaiteModel.Props.C08Forward", "Primait
            "PrimaiteModel.Props.C08Addressee", "PrimaiteModel.Props.C08Liveness", "PrimaiteModel.Props.C08FuelMono",
            "PrimaiteModel.Props.C08Termination", "PrimaiteModel.Props.C08RouteOps", "PrimaiteModel.Props.C08Cold",
            "PrimaiteModel.Props.C08ColdRouter", "PrimaiteModel.Props.C08HostHop", "PrimaiteModel.Props.C08Metric",
-           "PrimaiteModel.Props.C08SwitchLearn", "PrimaiteModel.Props.C08ColdApp", "PrimaiteModel.Props.C08ArpGen"]
+           "PrimaiteModel.Props.C08SwitchLearn", "PrimaiteModel.Props.C08ColdApp", "PrimaiteModel.Props.C08ArpGen", "PrimaiteModel.Props.C08SessionGen"]
 EXE = "drv_c08"
 
 
